@@ -76,13 +76,24 @@ def rcell(r, col):
             return rfloat(r, k)
         if k == 'E':
             return r.choice(col['enum'][1])
-        return rstr_elem(r, col['n']) if col.get('len', 0) else rstr(r, col['n'])
+        n = col['n'] + (5 if col.get('var') else 0)
+        return rstr_elem(r, n) if col.get('len', 0) else rstr(r, n)
     if col.get('len', 0):
         return [one() for _ in range(col['len'])]
     return one()
 
 
-def gen_tables(r):
+COMMENTS = [None, None, None, 'short header', '# already a comment', 'x',
+            ['first line', 'second line'], ['a much longer header line than the default one would ever be, '
+                                            'to make the text of a copy longer than the text it replaces']]
+
+
+def rname(r, prefix, k):
+    pad = r.choice(['', '', '', 'x', 'y'*7, 'z'*40, 'w'*90])
+    return '%s%d%s.par' % (prefix, k, pad)
+
+
+def gen_tables(r, external=False):
     ntab = r.randint(1, 3)
     tables = []
     enum_used = False
@@ -106,6 +117,17 @@ def gen_tables(r):
             cols.append(col)
         nrow = r.choice([0, 1, 1, 2, 3, 4])
         rows = [[rcell(r, c) for c in cols] for _ in range(nrow)]
+        if external and nrow:
+            # variable-length `char x[]` columns exist only in files written by other tools
+            for ci, c in enumerate(cols):
+                if c['kind'] == 'S' and r.random() < 0.6:
+                    c['var'] = True
+                    first = rows[0][ci]
+                    if c.get('len', 0):
+                        if not any(first):
+                            first[0] = 'q'
+                    elif not first:
+                        rows[0][ci] = 'q'
         tables.append({'name': 'TB%dZ' % t, 'columns': cols, 'rows': rows})
     return tables
 
@@ -119,9 +141,11 @@ def generate(seed, tier='quick'):
     day = r.randrange(10000, 30000)
     clock = {'start': day*86400.0 + r.choice([0.0, 86399.0, 86399.5, r.uniform(0, 86400)]),
              'ticks': [r.choice([0.0, 0.0, 0.001, 0.5, 1.0, 61.0]) for _ in range(3)]}
-    tables = gen_tables(r)
+    start = r.choice(['writer', 'writer', 'writer', 'normal', 'raw', 'external-normal', 'external-raw'])
+    tables = gen_tables(r, external=start.startswith('external'))
     hdr = [['k%dw' % i, rstr(r, 6, header=True)] for i in range(r.randint(0, 4))]
-    start = r.choice(['writer', 'writer', 'normal', 'raw'])
+    comments0 = r.choice(COMMENTS)
+    style = r.choice([0, 0, 1])
     weights = {op: r.choice([0, 1, 1, 2, 4]) for op in OPS}
     weights['append_rows'] = max(weights['append_rows'], 1)
     nsteps = r.randint(3, 14)
@@ -129,6 +153,7 @@ def generate(seed, tier='quick'):
     nf = 1
     nx = 0
     npair = 0
+    names = ['f0.par']
     population = [op for op in OPS for _ in range(weights[op])]
     for s in range(nsteps):
         op = r.choice(population)
@@ -148,21 +173,22 @@ def generate(seed, tier='quick'):
             steps.append({'op': 'append', 'rows': {}, 'pairs': [], 'case': 'upper', 'form': 'lists',
                           'symbols': r.random() < 0.5})
         elif op == 'write_copy':
-            steps.append({'op': 'write_copy', 'name': 'f%d.par' % nf})
+            steps.append({'op': 'write_copy', 'name': rname(r, 'f', nf), 'comments': r.choice(COMMENTS)})
+            names.append(steps[-1]['name'])
             nf += 1
         elif op == 'reread':
             steps.append({'op': 'reread', 'raw': r.random() < 0.5})
         elif op == 'write_over':
             u = r.random()
             if u < 0.35:
-                steps.append({'op': 'write_self'})                 # own, still existing, file
+                steps.append({'op': 'write_self', 'comments': r.choice(COMMENTS)})   # own, still existing, file
             elif u < 0.7:
                 steps.append({'op': 'ext_create', 'name': 'x%d.par' % nx,
                               'content': r.choice(['garbage', 'yanny', 'empty'])})
                 steps.append({'op': 'write_copy', 'name': 'x%d.par' % nx})
                 nx += 1
             elif u < 0.85 and nf > 1:
-                steps.append({'op': 'write_copy', 'name': 'f%d.par' % r.randint(0, nf - 1)})
+                steps.append({'op': 'write_copy', 'name': r.choice(names)})
             else:
                 steps.append({'op': 'wnd_over', 'target': r.choice(['bound', 'f0.par'])})
         elif op == 'append_missing':
@@ -178,9 +204,10 @@ def generate(seed, tier='quick'):
             steps.append(st)
             u = r.random()
             if u < 0.7:
-                steps.append({'op': 'write_self'})                 # re-create from the object
+                steps.append({'op': 'write_self', 'comments': r.choice(COMMENTS)})   # re-create from the object
             elif u < 0.85:
-                steps.append({'op': 'write_copy', 'name': 'f%d.par' % nf})
+                steps.append({'op': 'write_copy', 'name': rname(r, 'f', nf), 'comments': r.choice(COMMENTS)})
+                names.append(steps[-1]['name'])
                 nf += 1
         elif op == 'clock_jump':
             u = r.random()
@@ -196,4 +223,5 @@ def generate(seed, tier='quick'):
                           'content': r.choice(['garbage', 'yanny', 'empty'])})
             nx += 1
     return {'property': 'C03', 'seed': seed, 'clock': clock, 'tables': tables, 'hdr': hdr,
-            'start': start, 'steps': steps[:16], 'weights': weights}
+            'start': start, 'comments': comments0, 'style': style, 'steps': steps[:16],
+            'weights': weights}
